@@ -15,7 +15,13 @@ if r.get('kind') != 'failing-input':
 key = r['violation'].get('key')
 out = os.path.join(verif, 'build', 'run', f'{pid}-replay.json')
 os.makedirs(os.path.dirname(out), exist_ok=True)
-subprocess.run(['/venv/bin/python', os.path.join(here, pid + '.py'), '--out', out, '--budget', '2000'], cwd=here)
+env = dict(os.environ)
+if pid == 'C17':
+    # an event-sequence property: replay exactly the recorded sequences instead of searching again
+    seqs = [v['sequence'] for v in [r['violation']] + r.get('all', []) if v.get('sequence')]
+    if seqs:
+        env['VERIF_C17_SEQS'] = json.dumps(seqs[:20])
+subprocess.run(['/venv/bin/python', os.path.join(here, pid + '.py'), '--out', out, '--budget', '2000'], cwd=here, env=env)
 res = json.load(open(out))
 hits = [v for v in res.get('violations', []) if v.get('key') == key]
 if hits:
